@@ -245,6 +245,15 @@ def path_segments(head):
     if cur: segs.append(cur)
     return [x.strip() for x in segs if x.strip()]
 
+
+# rustc prints paths in the shortest unambiguous form, which depends on what else is in scope (i.e. on the feature set): contracts are
+# matched on a canonical spelling in which the std / core module prefixes of well-known types are dropped
+_STD_PREFIXES = ['std::string::', 'std::option::', 'std::result::', 'std::vec::', 'std::ops::', 'std::marker::', 'std::convert::', 'std::default::', 'std::boxed::',
+                 'std::borrow::', 'std::mem::', 'std::clone::', 'std::cmp::', 'core::option::', 'core::result::', 'core::ops::', 'core::convert::', 'core::marker::', 'core::clone::', 'core::cmp::', 'core::default::',
+                 'std::fmt::', 'core::fmt::rt::', 'core::fmt::', 'std::slice::', 'core::slice::', 'std::str::', 'core::str::', 'core::num::', 'std::collections::', 'std::iter::', 'core::iter::', 'alloc::fmt::', 'alloc::string::', 'alloc::vec::', 'std::array::', 'core::array::']
+_CANON_RE = re.compile('|'.join(re.escape(x) for x in sorted(_STD_PREFIXES, key=len, reverse=True)))
+def canon_path(s): return _CANON_RE.sub('', s)
+
 # ----------------------------------------------------------------------------- types (for impl resolution)
 def strip_lifetimes(t):
     t = re.sub(r"'\w+\s*,\s*", '', t); t = re.sub(r"<'\w+>", '', t); t = re.sub(r"&'\w+ ", '&', t); t = re.sub(r"'\w+ ", '', t)
@@ -713,8 +722,9 @@ class Exec:
 
     def call(self, st, fr, callee, args, dest, nxt):
         callee = self.subst_callee(fr, callee)
+        canon = canon_path(callee)
         for pat, fnc in self.contracts:
-            if re.search(pat, callee):
+            if re.search(pat, canon):
                 self.stats['contracts'].add(fnc.__name__ + '  /' + pat + '/')
                 outs = fnc(self, st, callee, args)
                 res = []
